@@ -1,5 +1,12 @@
 package bpmn
 
+import (
+	"context"
+
+	"github.com/olive-io/bpmn/v2/pkg/data"
+	"github.com/olive-io/bpmn/v2/pkg/expression"
+)
+
 // C01: token flow conforms to BPMN semantics - decided per engine step (see DESIGN.md section 4, C01).
 
 // answers at most `max` task requests, in the order they were traced
@@ -85,4 +92,54 @@ func VerifC01e_Seq() {
 	verifAssert(inst.count("a") == 1, "an activity is requested exactly once per token")
 	verifAssert(inst.count("done:e") == 1, "the instance reaches exactly the end events the token game reaches")
 	verifAssert(inst.ceased == 1, "instance completed (cease-flow trace emitted once)")
+}
+
+// C01.f: a condition is evaluated against the instance's data as it is at that moment - also when the same token (flow
+// object) has evaluated a condition before and another token's task result has changed a variable since.
+// Real flow.executeSequenceFlow, FlowDataLocator.SetVariable/CloneVariables, schema.Value; symbolically only the expression
+// engine is a stand-in (verifGetEngine: looks the expression text up among the properties it is handed).
+type verifEngine struct{}
+
+func (verifEngine) CompileExpression(source string) (expression.ICompiledExpression, error) {
+	return source, nil
+}
+func (verifEngine) EvaluateExpression(c expression.ICompiledExpression, props interface{}) (expression.IResult, error) {
+	m, _ := props.(map[string]any)
+	return m[c.(string)], nil
+}
+func (verifEngine) SetItemAwareLocator(string, data.IItemAwareLocator) {}
+
+func verifGetEngine(ctx context.Context, lang string) expression.IEngine { return verifEngine{} }
+
+func VerifC01f_ConditionSeesCurrentData() {
+	v0 := verifNondetBool("v0")
+	v1 := verifNondetBool("v1")
+	b := verifNewB("p")
+	b.task("a", []string{"in"}, []string{"f1", "f2"})
+	b.flow("in", "s", "a", false)
+	b.flow("f1", "a", "t1", true)
+	b.flow("f2", "a", "t2", true)
+	b.task("t1", []string{"f1"}, nil)
+	b.task("t2", []string{"f2"}, nil)
+	b.cond("f1", v0)
+	b.cond("f2", v0)
+	inst := verifNewInst(b)
+	if inst.proc == nil {
+		return
+	}
+	p := inst.proc
+	fl := newFlow(inst.defs, inst.nodeAt("a"), p.subTracer, p.flowNodeMapping, &p.flowWaitGroup, p.idGenerator, nil, p.locator)
+	pe := &inst.defs.ProcessField[0]
+	sf1 := NewSequenceFlow(&pe.SequenceFlowField[1], pe)
+	sf2 := NewSequenceFlow(&pe.SequenceFlowField[2], pe)
+	verifReach("built")
+	r1, err1 := fl.executeSequenceFlow(inst.ctx, sf1, false)
+	verifAssert(err1 == nil && r1 == v0, "a condition is evaluated against the instance's data")
+	// another token's task result is applied (flow.Start does f.locator.SetVariable for every result variable)
+	p.locator.SetVariable("f2", v1)
+	r2, err2 := fl.executeSequenceFlow(inst.ctx, sf2, false)
+	verifAssert(err2 == nil && r2 == v1, "a condition evaluated after another token changed a variable sees the new value")
+	// and the token's own earlier evaluation is repeatable
+	r3, err3 := fl.executeSequenceFlow(inst.ctx, sf1, false)
+	verifAssert(err3 == nil && r3 == v0, "a condition is evaluated against the instance's data")
 }
